@@ -4,6 +4,7 @@
 package shard
 
 import (
+	"sync"
 	"fmt"
 	"sort"
 	"strings"
@@ -192,19 +193,29 @@ var initials = []struct {
 }
 
 // recCache records invalidations so that "cache cleared for every change" is part of the state.
+// (the real XdsCache synchronises itself; so does this stand-in, with a real mutex that the scheduler
+// does not see, so that the free-running -race pass reports the index's accesses only)
 type recCache struct {
 	model.DisabledCache
+	mu                sync.Mutex
 	clears, clearAlls int
 }
 
 func (r *recCache) Clear(s sets.Set[model.ConfigKey]) {
+	r.mu.Lock()
+	defer r.mu.Unlock()
 	for k := range s {
 		if k.Kind == kind.ServiceEntry {
 			r.clears++
 		}
 	}
 }
-func (r *recCache) ClearAll() { r.clearAlls++ }
+
+func (r *recCache) ClearAll() {
+	r.mu.Lock()
+	r.clearAlls++
+	r.mu.Unlock()
+}
 
 func dump(e *model.EndpointIndex) string {
 	z := e.Shardz()
